@@ -3,7 +3,7 @@ CONSTANTS
   NV = 3
   MaxOps = 1000
   Mode = "asfound"
-  Alphabet = {"set", "del", "pop", "popitem", "update", "setdefault", "clear", "mutate", "flush", "reload", "reopen", "crash"}
+  Alphabet = {"set", "del", "pop", "popd", "popitem", "update", "setdefault", "clear", "mutate", "flush", "reload", "reopen", "crash"}
 SPECIFICATION Spec
 VIEW view
 INVARIANT TypeOK
